@@ -450,6 +450,10 @@ pub fn run(prop: &'static str, tier: Tier) -> i32 {
     let mut ev = Evidence::new(prop, tier);
     // the same statements through the real link layer (connection tasks over in-memory streams)
     crate::e7_flow::run_part(prop, tier, &reporter, &mut ev);
+    if matches!(prop, "C01" | "C03" | "C14") {
+        // and through the embedding API of link/local.rs
+        crate::e7_flow::run_embedded_part(prop, tier, &reporter, &mut ev);
+    }
     explore_plans(prop, tier, &reporter, &mut ev, 1.0);
     ev.violations = reporter.new_violations();
     let notes: Vec<String> = reporter.notes().iter().map(|(c, n)| format!("{c}: {n}")).collect();
